@@ -14,9 +14,9 @@ use serde_json::json;
 #[derive(Clone, Debug)]
 pub struct Cfg { pub preset: u8, pub kinetic: u8, pub method: u8, pub dim: usize, pub num_tune: u64, pub num_draws: u64, pub seed: u64, pub faults: Vec<(u64, FaultKind)> }
 
-pub fn kind_code(k: FaultKind) -> u8 { ALL_FAULTS.iter().position(|x| *x == k).unwrap() as u8 }
+pub fn kind_code(k: FaultKind) -> u8 { ALL_FAULTS_EXT.iter().position(|x| *x == k).unwrap() as u8 }
 pub fn kind_name(k: FaultKind) -> &'static str {
-    match k { FaultKind::Recoverable => "recoverable", FaultKind::Unrecoverable => "unrecoverable", FaultKind::NanLogp => "nanLogp", FaultKind::PosInfLogp => "posInfLogp", FaultKind::NegInfLogp => "negInfLogp", FaultKind::NanGrad => "nanGrad", FaultKind::InfGrad => "infGrad", FaultKind::ZeroGrad => "zeroGrad" }
+    match k { FaultKind::Recoverable => "recoverable", FaultKind::Unrecoverable => "unrecoverable", FaultKind::NanLogp => "nanLogp", FaultKind::PosInfLogp => "posInfLogp", FaultKind::NegInfLogp => "negInfLogp", FaultKind::NanGrad => "nanGrad", FaultKind::InfGrad => "infGrad", FaultKind::ZeroGrad => "zeroGrad", FaultKind::EnergyJump => "energyJump" }
 }
 
 impl Cfg {
@@ -27,7 +27,7 @@ impl Cfg {
     pub fn from_json(v: &serde_json::Value) -> Cfg {
         Cfg { preset: v["preset"].as_u64().unwrap() as u8, kinetic: v["kinetic"].as_u64().unwrap() as u8, method: v["method"].as_u64().unwrap() as u8, dim: v["dim"].as_u64().unwrap() as usize,
               num_tune: v["num_tune"].as_u64().unwrap(), num_draws: v["num_draws"].as_u64().unwrap(), seed: v["seed"].as_u64().unwrap(),
-              faults: v["faults"].as_array().unwrap().iter().map(|p| (p[0].as_u64().unwrap(), ALL_FAULTS[p[1].as_u64().unwrap() as usize])).collect() }
+              faults: v["faults"].as_array().unwrap().iter().map(|p| (p[0].as_u64().unwrap(), ALL_FAULTS_EXT[p[1].as_u64().unwrap() as usize])).collect() }
     }
     pub fn init_pos(&self) -> Vec<f64> { (0..self.dim).map(|i| 0.3 + 0.9 * i as f64).collect() }
     pub fn target(&self) -> Target {
@@ -98,7 +98,11 @@ pub fn run(cfg: &Cfg) -> Run {
     }
     let kin = if cfg.kinetic == 0 { KineticEnergyKind::Euclidean } else { KineticEnergyKind::ExactNormal };
     macro_rules! common { ($s:ident) => {{ $s.num_tune = cfg.num_tune; $s.num_draws = cfg.num_draws; $s.maxdepth = 4; $s.trajectory_kind = kin;
-        match cfg.method { 0 => {}, 1 => $s.adapt_options.step_size_settings.adapt_options.method = StepSizeAdaptMethod::Adam, 2 => $s.adapt_options.step_size_settings.adapt_options.method = StepSizeAdaptMethod::Fixed(0.7), _ => { $s.adapt_options.step_size_settings.adapt_options.method = StepSizeAdaptMethod::Fixed(1.1); $s.adapt_options.step_size_settings.jitter = None; $s.max_energy_error = 5.0; } } }}; }
+        match cfg.method { 0 => {}, 1 => $s.adapt_options.step_size_settings.adapt_options.method = StepSizeAdaptMethod::Adam, 2 => $s.adapt_options.step_size_settings.adapt_options.method = StepSizeAdaptMethod::Fixed(0.7), 3 => { $s.adapt_options.step_size_settings.adapt_options.method = StepSizeAdaptMethod::Fixed(1.1); $s.adapt_options.step_size_settings.jitter = None; $s.max_energy_error = 5.0; }
+            // a configured energy limit (50) with a stable fixed step; 5: doublings below mindepth, 6: extra doublings, 7: depth window from the
+            // target integration time -- the doublings that run without the U-turn check
+            m => { $s.adapt_options.step_size_settings.adapt_options.method = StepSizeAdaptMethod::Fixed(0.7); $s.adapt_options.step_size_settings.jitter = None; $s.max_energy_error = 50.0;
+                   match m { 5 => $s.mindepth = 2, 6 => $s.extra_doublings = 2, 7 => $s.target_integration_time = Some(4.0), _ => {} } } } }}; }
     match cfg.preset {
         0 => { let mut s = DiagNutsSettings::default(); common!(s); s.adapt_options.mass_matrix_update_freq = 3; go!(s) }
         1 => { let mut s = LowRankNutsSettings::default(); common!(s); s.adapt_options.mass_matrix_update_freq = 5; go!(s) }
@@ -127,6 +131,8 @@ pub fn check_run(cfg: &Cfg, run: &Run, cases: &mut Cases, rep: &mut Report) {
     let target = cfg.target();
     // positions that were evaluated without fault (valid states), plus the initial position
     let mut ended = false;
+    // an EnergyJump at an initial / trial evaluation is no fault there, but the state it produced carries the lowered log-density
+    let mut logp_tainted = false;
     for (ci, call) in run.calls.iter().enumerate() {
         let what = if call.is_draw { format!("draw #{}", ci - 1) } else { "set_position".to_string() };
         let here: Vec<(u64, FaultKind)> = cfg.faults.iter().filter(|(k, _)| *k >= call.e0 && *k < call.e1).cloned().collect();
@@ -135,6 +141,7 @@ pub fn check_run(cfg: &Cfg, run: &Run, cases: &mut Cases, rep: &mut Report) {
             return;
         }
         let unrec = here.iter().any(|(_, f)| *f == FaultKind::Unrecoverable);
+        if here.iter().any(|(k, f)| *f == FaultKind::EnergyJump && role(run, cfg, call, *k) != 2) { logp_tainted = true; }
         // the evaluation counter stops at the failing evaluation: a fault at k >= e1 was not reached
         for (k, f) in &here {
             let r = role(run, cfg, call, *k);
@@ -167,7 +174,7 @@ pub fn check_run(cfg: &Cfg, run: &Run, cases: &mut Cases, rep: &mut Report) {
                     if !call.pos.iter().all(|x| x.is_finite()) { rep.violation("c05.nonfinite_position", &format!("{what} returned a non-finite position {:?}", call.pos), replay.clone()); return; }
                     let mut g = vec![0.0; cfg.dim];
                     let lp = target.eval(&call.pos, &mut g);
-                    if !call.logp.is_finite() || call.logp.to_bits() != lp.to_bits() {
+                    if !call.logp.is_finite() || (call.logp.to_bits() != lp.to_bits() && !logp_tainted) {
                         rep.violation("c05.invalid_draw_logp", &format!("{what} reports logp {} but the density at the returned position is {lp} (faults {:?})", call.logp, cfg.faults), replay.clone()); return;
                     }
                     if !(call.step_size.is_finite() && call.step_size > 0.0) { rep.violation("c05.bad_step_size", &format!("{what} reports step size {}", call.step_size), replay.clone()); return; }
@@ -210,6 +217,11 @@ pub fn base_cfgs(tier: &str, seed: u64) -> Vec<Cfg> {
     } } }
     // energy-error divergences: a fixed step size beyond the stability limit of the stiffest coordinate
     for preset in 0..2u8 { out.push(Cfg { preset, kinetic: 0, method: 3, dim: 3, num_tune: 10, num_draws: 6, seed: seed.wrapping_mul(77) + preset as u64, faults: vec![] }); }
+    // configured energy limit x the doublings without U-turn check (mindepth, extra doublings, integration-time window)
+    for method in 4..8u8 { for preset in 0..2u8 {
+        if tier != "thorough" && preset as u64 != (method as u64 + seed) % 2 { continue; }
+        out.push(Cfg { preset, kinetic: (method % 2), method, dim: 3, num_tune: 8, num_draws: 5, seed: seed.wrapping_mul(91) + method as u64 * 2 + preset as u64, faults: vec![] });
+    } }
     out
 }
 
@@ -224,7 +236,8 @@ pub fn main(tier: &str, seed: u64, outdir: &str) {
         rep.hit(&format!("preset{}_kin{}_method{}.evals_{}", base.preset, base.kinetic, base.method, n / 100 * 100));
         if rep.samples.len() < 3 { rep.sample(json!({"cfg": base.to_json(), "evaluations": n, "set_position_evals": reference.calls[0].e1})); }
         // every evaluation index x every fault kind
-        for k in 0..n { for f in ALL_FAULTS {
+        let kinds: &[FaultKind] = if base.method >= 3 { &ALL_FAULTS_EXT } else { &ALL_FAULTS };
+        for k in 0..n { for f in kinds.iter().copied() {
             let mut c = base.clone(); c.faults = vec![(k, f)];
             let out = run(&c);
             check_run(&c, &out, &mut cases, &mut rep);
@@ -233,7 +246,7 @@ pub fn main(tier: &str, seed: u64, outdir: &str) {
         let npairs = if tier == "thorough" { 20000 } else { 150 };
         for _ in 0..npairs {
             let k1 = r.below(n); let span = if r.coin() { 6 } else { n }; let k2 = (k1 + 1 + r.below(span)).min(n + 5);
-            let mut c = base.clone(); c.faults = vec![(k1, *r.pick(&ALL_FAULTS)), (k2, *r.pick(&ALL_FAULTS))];
+            let mut c = base.clone(); c.faults = vec![(k1, *r.pick(kinds)), (k2, *r.pick(kinds))];
             let out = run(&c);
             check_run(&c, &out, &mut cases, &mut rep);
         }
